@@ -196,6 +196,8 @@ def gen_cases(ctx):
         if bound and rng.random() < 0.6:
             stmts = stmts + [readback(rng.choice(bound), 10 + len(stmts))]
         enabled = [True] * len(stmts)
+        if rng.random() < 0.35:
+            gendoc.add_inline_directives(rng, stmts)
         text, wants = gendoc.render_layout(rng, stmts, google=False)
         lines = text.split('\n')
         # tabs instead of 8 leading blanks on some lines; inline +SKIP on some statements without a want
